@@ -59,11 +59,25 @@ class Point:
         return self.syms[name]
 
     def iv(self, name):
+        if name not in self.ivs and isinstance(name, str) and name.startswith("@"):
+            # a pseudo index variable that stands for a data-dependent index expression (arrays.intern_index): its value
+            # is the value of that expression at this point, whenever it can be evaluated
+            from .arrays import INDEX_EXPRS
+            x = INDEX_EXPRS.get(name)
+            if x is not None:
+                try:
+                    v = ev(x, self)
+                    if isinstance(v, (int, float)) and not isinstance(v, bool) and v == v and abs(v) != float("inf"):
+                        self.ivs[name] = int(round(v))
+                except (NotEvaluable, RecursionError):
+                    pass
         if name not in self.ivs:
             self.ivs[name] = self.rng.randrange(2 * self.nrows + 1)
         return self.ivs[name]
 
     def size(self, key):
+        if isinstance(key, tuple) and len(key) == 2 and key[0] == "n" and isinstance(key[1], int):
+            return key[1]   # an axis of fixed, known length
         if key not in self.sizes:
             if isinstance(key, tuple) and len(key) == 2 and key[0] == "range" and isinstance(key[1], Expr) \
                     and self.eval_ranges:
